@@ -101,6 +101,11 @@ def run_one(col, scratch, fid, n, active, kin, npk, mode, compression, previous,
     ddf = dd.from_pandas(P0, npartitions=kin)
     fmt, tmproot = tempdir_format(mode, path, tmpbase)
     kw = dict(npartitions=npk, p=p, compression=compression, tempdir_format=fmt, _retry_args=RETRY)
+    if npk == 8 and (n + kin) % 2 == 0:
+        # the rarely used spellings of the same request: default npartitions (8 below 2^23 rows), filesystem by name,
+        # empty option dictionaries
+        del kw["npartitions"]
+        kw.update(filesystem="file", storage_options={}, engine_kwargs={})
     try:
         if previous != "none":
             nprev = 8 if previous == "larger" else 2
